@@ -127,6 +127,50 @@ Fixpoint sobss_eqb (a b : list sobs) : bool :=
 Definition seq_oracle (slow : bool) (c : cfg) (ops : list sop) (obs : list sobs) : bool :=
   sobss_eqb obs (ref_run slow c ref_init ops).
 
+(* Grouped form.  One step of a script may stand for SEVERAL operations whose order is known
+   although the caller did not wait in between: an Add issued from inside a callback the
+   limiter's own goroutine makes while it handles an expiry (or another Add's hand-over) cannot
+   be counted before that handling is over, so the step is "the expiry, then the Add".  Per
+   step the signals are summed and the window observations listed in order ([WNone] left out). *)
+Definition gobs := (Z * list wobs)%type.
+
+Fixpoint ref_group (slow : bool) (c : cfg) (r : ref) (ops : list sop) : ref * gobs :=
+  match ops with
+  | [] => (r, (0, []))
+  | op :: ops' =>
+      let '(r1, (k, w)) := ref_obs slow c r op in
+      let '(r2, (k2, ws)) := ref_group slow c r1 ops' in
+      (r2, (k + k2, match w with WNone => ws | _ => w :: ws end))
+  end.
+
+Fixpoint ref_run_g (slow : bool) (c : cfg) (r : ref) (steps : list (list sop)) : list gobs :=
+  match steps with
+  | [] => []
+  | ops :: rest => let '(r', o) := ref_group slow c r ops in o :: ref_run_g slow c r' rest
+  end.
+
+Definition seqg_spec (slow : bool) (c : cfg) (steps : list (list sop)) (obs : list gobs) : Prop :=
+  obs = ref_run_g slow c ref_init steps.
+
+Fixpoint wobss_eqb (a b : list wobs) : bool :=
+  match a, b with
+  | [], [] => true
+  | x :: a', y :: b' => wobs_eqb x y && wobss_eqb a' b'
+  | _, _ => false
+  end.
+
+Definition gobs_eqb (a b : gobs) : bool := (fst a =? fst b) && wobss_eqb (snd a) (snd b).
+
+Fixpoint gobss_eqb (a b : list gobs) : bool :=
+  match a, b with
+  | [], [] => true
+  | x :: a', y :: b' => gobs_eqb x y && gobss_eqb a' b'
+  | _, _ => false
+  end.
+
+Definition seqg_oracle (slow : bool) (c : cfg) (steps : list (list sop)) (obs : list gobs) : bool :=
+  gobss_eqb obs (ref_run_g slow c ref_init steps).
+
 (* ===================================================================================== *)
 (* 2. Any timeline (also Adds issued from several goroutines at one instant, whose order    *)
 (*    against the limiter's own goroutine is not known): per operation, how many Adds were  *)
